@@ -208,7 +208,7 @@ def codepointsToString : List Int → Except Err Str
 
 /-- `evaluate__string_to_codepoints`: `[ord(c) for c in arg] if arg else []` -/
 def stringToCodepoints (arg : Str) : List Int :=
-  if arg.isEmpty then [] else arg.map Int.ofNat
+  if arg.isEmpty then [] else arg.map fun (c : Nat) => (c : Int)
 
 /-- `collations.unicode_codepoint_strcoll` followed by the sign normalisation of
 `evaluate__compare`:  `0 if s1 == s2 else -1 if s1 < s2 else 1` -/
@@ -317,5 +317,52 @@ def iriToUri (s : Str) : Except Err Str := quote iriSafe s
 
 /-- `evaluate__escape_html_uri`: `quote(uri, safe=''.join(chr(cp) for cp in range(32, 127)))` -/
 def escapeHtmlUri (s : Str) : Except Err Str := quote (List.range' 32 95) s
+
+/-! ## Argument handling: `XPathFunction.get_argument` on a string or the empty sequence -/
+
+/-- `self.get_argument(context, index, default='', cls=str)` -/
+def argDefault (arg : Option Str) : Str :=
+  match arg with
+  | none => []        -- the default
+  | some s => s
+
+/-- `evaluate__compare` / `evaluate__codepoint_equal`:
+`if comp1 is None or comp2 is None: return []` -/
+def noneIfEitherNone {α : Type} (f : Str → Str → α) (comp1 comp2 : Option Str) : Option α :=
+  match comp1, comp2 with
+  | some a, some b => some (f a b)
+  | _, _ => none
+
+/-- `self.get_argument(context, index, default=default, cls=str)` -/
+def getArgument (default arg : Option Str) : Option Str :=
+  match arg with
+  | none => default
+  | some s => some s
+
+/-- `evaluate__translate` with its argument checks (`compat` = `self.parser.compatibility_mode`,
+true for XPath1Parser):
+```
+arg = self.get_argument(context, default='', cls=str)
+default = '' if self.parser.compatibility_mode else None
+map_string = self.get_argument(context, index=1, default=default, cls=str)
+if map_string is None: raise self.error('XPTY0004', ...)
+trans_string = self.get_argument(context, index=2, default=default, cls=str)
+if trans_string is None: raise self.error('XPTY0004', ...)
+``` -/
+def fnTranslate (compat : Bool) (arg mapString transString : Option Str) :
+    Except FOStrings.TypeErr Str :=
+  let default : Option Str := if compat then some [] else none
+  match getArgument default mapString with
+  | none => .error .XPTY0004
+  | some m =>
+    match getArgument default transString with
+    | none => .error .XPTY0004
+    | some t => .ok (translate (argDefault arg) m t)
+
+/-- `evaluate__string_join`: `separator = self.get_argument(context, 1, required=True, cls=str)` -/
+def fnStringJoin (items : List Str) (separator : Option Str) : Except FOStrings.TypeErr Str :=
+  match separator with
+  | none => .error .XPTY0004
+  | some sep => .ok (stringJoin items sep)
 
 end EPV.Strings
